@@ -194,6 +194,9 @@ func (e *byzEngine) genCase(seed uint64) *ByzCase {
 	if r.Pct(15) {
 		p.MaxBlocks, p.MaxAdds = 20, 64
 	}
+	if r.Pct(4) {
+		p.MaxBlocks, p.MaxAdds = 12, 400 // trees of 512 and more leaves: rows 9+
+	}
 	sc := Generate(p, mix64(seed^0xb42))
 	// plain delivery: no latencies / faults needed to build a state
 	var steps []Step
@@ -528,7 +531,7 @@ func (e *byzEngine) mutate(r *Rng, c Claim, L *Layout, pool []H, maxPos uint64) 
 	if len(c.Targets) == 0 {
 		return c
 	}
-	switch r.Intn(9) {
+	switch r.Intn(11) {
 	case 0:
 		i := r.Intn(len(c.Targets))
 		c.Targets[i] = uint64(r.Next() % (maxPos + 1))
@@ -591,6 +594,53 @@ func (e *byzEngine) mutate(r *Rng, c Claim, L *Layout, pool []H, maxPos uint64) 
 	case 8:
 		c.Proof = append(c.Proof, H{0xaa, byte(r.Next())})
 		c.Mut += "; junk proof hash"
+	case 9, 10:
+		// a node high on a target's path becomes a target itself: either the
+		// ancestor (nested) or the ancestor's sibling (then its proof hash is
+		// withdrawn: the proof is truncated), with the true hash or a wrong one
+		i := r.Intn(len(c.Targets))
+		ro, ok := roOfPos(c.Targets[i], L.R)
+		if !ok {
+			break
+		}
+		var path []RO
+		for p := ro; !L.IsRoot(p) && p.R < 64; p = p.Parent() {
+			path = append(path, p)
+		}
+		if len(path) == 0 {
+			break
+		}
+		a := path[r.Intn(len(path))]
+		if r.Pct(70) && len(path) > 1 {
+			a = path[len(path)-1-r.Intn((len(path)+1)/2)] // bias: high rows
+		}
+		node := a.Parent()
+		what := "ancestor"
+		if r.Pct(60) {
+			node, what = a.Sib(), "sibling of an ancestor"
+		}
+		th, exists := L.Nodes[node]
+		if !exists {
+			break
+		}
+		hv := th
+		switch r.Intn(3) {
+		case 1:
+			if ah, ok := L.Nodes[a]; ok {
+				hv = ah
+			}
+		case 2:
+			hv = pool[r.Intn(len(pool))]
+		}
+		for j := range c.Proof {
+			if c.Proof[j] == th {
+				c.Proof = append(c.Proof[:j:j], c.Proof[j+1:]...)
+				break
+			}
+		}
+		c.Targets = append(c.Targets, node.Pos(L.R))
+		c.Hashes = append(c.Hashes, hv)
+		c.Mut += fmt.Sprintf("; %s (row %d) claimed as target, true hash=%v", what, node.R, hv == th)
 	}
 	return c
 }
@@ -678,7 +728,8 @@ func (e *byzEngine) evaluate(bs *byzState, c Claim, prog *byzProgress, stats *St
 		// fresh copies for every call: the verifier must not be able to disturb the next one
 		hashes := append([]H(nil), c.Hashes...)
 		proof := u.Proof{Targets: append([]uint64(nil), c.Targets...), Proof: append([]H(nil), c.Proof...)}
-		var call func() error
+		var call, recheck func() error
+		after := false
 		var before u.Stump
 		switch ver {
 		case "Verify":
@@ -728,8 +779,10 @@ func (e *byzEngine) evaluate(bs *byzState, c Claim, prog *byzProgress, stats *St
 			stats.OracleChecks["byz_remember_calls"]++
 			if ver == "VerifyPartialProof(remember)" {
 				call = func() error { return cl.VerifyPartialProof(proof.Targets, hashes, proof.Proof, true) }
+				recheck = func() error { return cl.VerifyPartialProof(proof.Targets, hashes, proof.Proof, false) }
 			} else {
 				call = func() error { return cl.Verify(hashes, proof, true) }
+				recheck = func() error { return cl.Verify(hashes, proof, false) }
 			}
 		}
 		prog.mu.Lock()
@@ -748,7 +801,19 @@ func (e *byzEngine) evaluate(bs *byzState, c Claim, prog *byzProgress, stats *St
 		}
 		if err != nil {
 			stats.Faults["msg_corrupt_rejected"]++
-			continue
+			if recheck != nil {
+				// a rejected remembering call must leave nothing behind that makes
+				// the same claim acceptable afterwards
+				stats.OracleChecks["byz_recheck_after_rejection"]++
+				e2, p2 := guard(recheck)
+				if p2 || e2 != nil {
+					continue
+				}
+				err = nil
+				after = true
+			} else {
+				continue
+			}
 		}
 		dg = mix64(dg ^ uint64(vi+1)*0x9e37)
 		accepted[ver] = true
@@ -789,7 +854,12 @@ func (e *byzEngine) evaluate(bs *byzState, c Claim, prog *byzProgress, stats *St
 				if exists {
 					what = "the node there has another hash"
 				}
-				report(Violation{Property: "C03", Class: cls + ":" + ver, Detail: fmt.Sprintf("%s accepted hash %s at position %d but %s (N=%d, targets %v, %d proof hashes) [%s]", ver, short(c.Hashes[i]), t, what, bs.st.N, c.Targets, len(c.Proof), c.Mut)}, c, ver)
+				how := ver + " accepted"
+				if after {
+					cls = "accepted-after-rejection"
+					how = ver + " first rejected the claim, but what the rejected call left behind made the plain verifier accept"
+				}
+				report(Violation{Property: "C03", Class: cls + ":" + ver, Detail: fmt.Sprintf("%s hash %s at position %d but %s (N=%d, targets %v, %d proof hashes) [%s]", how, short(c.Hashes[i]), t, what, bs.st.N, c.Targets, len(c.Proof), c.Mut)}, c, ver)
 				break
 			}
 		}
